@@ -3,7 +3,7 @@ import random
 import vlib
 from props import exact_common as ec
 
-PIPES = {"rdp": ec.pipe("rdp")}
+PIPES = {"rdp": ec.pipe("rdp"), "rdpseq": ec.pipe("rdpseq")}
 
 
 def seeded(seed, n):
@@ -51,6 +51,24 @@ def seeded(seed, n):
     return out
 
 
+def ramps(seed, n):
+    """Consecutive cases whose point counts grow slowly (N, then N + 3, then N + 4 / N, 4N/3, 3N/2): the driver simplifies
+    them one after the other in one process, so scratch storage that a call leaves behind (a pooled mask, a reused stack) meets
+    a slightly larger line next. The second line has corners everywhere (everything retained), the third one is almost
+    straight (only its ends are retained): what the second call marked must not show in the third result."""
+    r = random.Random(seed * 7 + 2)
+    out = []
+    for i in range(n):
+        N = r.choice([8, 13, 21, 40, 55, 100, 130])
+        M, K = (N + 3, N + 4) if i % 2 == 0 else (N + N // 3, N + N // 2)
+        stride = r.choice([2, 3, 4])
+        thr = r.choice([[1, 1], [3, 2], [2, 1]])
+        out.append(dict(pts=[[k % 40, (k * 7) % 11] for k in range(N)], stride=stride, fill="", thr=thr))
+        out.append(dict(pts=[[k % 50, 10 if k % 2 else -10] for k in range(M)], stride=stride, fill="", thr=thr))      # all corners
+        out.append(dict(pts=[[k % 60, 0] for k in range(K)], stride=stride, fill="", thr=thr))       # along one line (ordinates < 64)
+    return out
+
+
 def run(ctx, verdict):
     fam = ec.family(ctx, verdict, "rdp", nontrivial=lambda c: len(c["pts"]) >= 3)
     # the same enumerated sequences with extra ordinates that repeat a neighbour's (x, y): "extra ordinates are ignored"
@@ -58,5 +76,10 @@ def run(ctx, verdict):
     vlib.note_cases(ctx, alias)
     ec.pipe("rdp")(ctx, verdict, alias)
     cases = seeded(ctx.seed, 250 if ctx.quick else 5000)
+    rs = ramps(ctx.seed, 12 if ctx.quick else 400)
+    hist = [dict(seq=rs[i:i + 3]) for i in range(0, len(rs), 3)]        # each history is ONE case: a replay repeats all of it
+    vlib.note_cases(ctx, hist)
+    ec.pipe("rdpseq")(ctx, verdict, hist)
+    ctx.coverage_extra["histories_of_three_simplifications"] = len(hist)
     vlib.note_cases(ctx, cases, nontrivial=lambda c: len(c["pts"]) >= 3)
     ec.pipe("rdp")(ctx, verdict, cases)
